@@ -279,14 +279,19 @@ class V:
         return pd.Series(self._conc_cells(vals, nulls, kind), dtype=DT[kind], name=sname, index=pd.Index(idx, dtype="int64", name=index_name))
 
     def frame(self, cols, n, labels=None, distinct_labels=False, index_name=None):
-        """cols: list of (label, kind[, nullable]); duplicate labels allowed."""
+        """cols: list of (label, kind[, nullable[, concrete values]]); duplicate labels allowed."""
         lab = self.labels(labels, n, distinct_labels) if labels else list(range(n))
         data = []
         for ci, c in enumerate(cols):
             kind = c[1]
             nullable = (kind in ("float", "str")) if len(c) < 3 or c[2] is None else c[2]
             prefix = f"{c[0]}_" if [x[0] for x in cols].count(c[0]) == 1 else f"{c[0]}{ci}_"
-            vals, nulls = self.cells(prefix, kind, n, nullable)
+            if len(c) > 3 and c[3] is not None:
+                conc = list(c[3])[:n]
+                vals = [symframe.lift_cell(x, kind) for x in conc]
+                nulls = [z3.BoolVal(False)] * n
+            else:
+                vals, nulls = self.cells(prefix, kind, n, nullable)
             data.append((c[0], kind, vals, nulls))
         if self.sym:
             idx = symframe.Index(lab, name=index_name)
@@ -298,7 +303,6 @@ class V:
         df = pd.concat(sers, axis=1)
         df.columns = [k for k, *_ in data]
         return df
-
 
     def mi_frame(self, cols, n, levels):
         """frame with a MultiIndex; levels: list of (level name, variable prefix) of int labels."""
